@@ -609,11 +609,13 @@ Proof.
   - unfold kw_keys. rewrite zlen_app, keys_bytes_length, zlen_zeros by lia. unfold kw_a. lia.
 Qed.
 
-Lemma kas_open_prefix its y : items_ok its -> its <> [] ->
-  kas_open true (kw_header its ++ kw_descs its ++ y) =
+Lemma kas_open_prefix_any (b : bool) its y : items_ok its -> its <> [] ->
+  kas_open b (kw_header its ++ kw_descs its ++ y) =
   match take (zlen (kw_keys its)) y with
   | None => Err E_FORMAT
-  | Some (kbuf, s3) => read_blocks (kw_fs its) (kw_k its) kbuf (layout (kw_k its) (kw_a its) its) s3
+  | Some (kbuf, s3) =>
+    if b then read_blocks (kw_fs its) (kw_k its) kbuf (layout (kw_k its) (kw_a its) its) s3
+    else Ok (lazy_items (kw_k its) kbuf (kw_header its ++ kw_descs its ++ y) (layout (kw_k its) (kw_a its) its), [])
   end.
 Proof.
   intros Hok Hne. pose proof (kw_facts its Hok Hne) as (Hn & Hk & Ha & Hal & Hfs & Hlt & Hkeys).
@@ -641,6 +643,15 @@ Proof.
   replace (zlen (kw_keys (it :: r)) =? 0) with false by (symmetry; apply Z.eqb_neq; lia).
   reflexivity.
 Qed.
+
+Lemma kas_open_prefix its y : items_ok its -> its <> [] ->
+  kas_open true (kw_header its ++ kw_descs its ++ y) =
+  match take (zlen (kw_keys its)) y with
+  | None => Err E_FORMAT
+  | Some (kbuf, s3) => read_blocks (kw_fs its) (kw_k its) kbuf (layout (kw_k its) (kw_a its) its) s3
+  end.
+Proof. intros. rewrite (kas_open_prefix_any true) by auto. destruct (take _ y) as [[? ?]|]; reflexivity. Qed.
+
 
 Definition block_of (a : Z) (it : item) (r : list item) : list Z :=
   idata it ++ match r with [] => [] | _ => zeros (align8 (a + isize it) - (a + isize it)) end.
